@@ -137,6 +137,11 @@ func runC13(tier string, seed uint64) {
 			// a key that begins with the delimiter (stored by PUT /bucket//p/a0): the grouped listings show it the way
 			// Prefix.Match sees it, and every other key is still there
 			keys = append(keys, "/p/a0", "p")
+			if i%8 == 7 {
+				// ... with a group of its own between it and the plain keys of its group: one response names
+				// a group once, wherever its keys sort
+				keys = append(keys, "m/x", "p/q")
+			}
 		}
 		if i%4 == 1 {
 			keys = append(keys, "m"+strings.Repeat("L", 1023)) // a key of the maximum length: it is a legal key marker too
@@ -247,6 +252,31 @@ func runC13(tier string, seed uint64) {
 				s.ListVersions(b, pd[0], pd[1], e.Key, vm, 1+rng.Intn(3))
 				s.wireNullMarker = false
 			}
+		}
+		// markers behind the last key: made up by the client, or handed out by the server before the keys
+		// behind them (here: the last key itself, every version of it) were removed. The listing resumes
+		// after them: nothing is left, and the answer says so (not truncated)
+		if n > 0 {
+			last := full.Entries[n-1]
+			s.ListVersions(b, "", "", last.Key+"0", "", 1+rng.Intn(3))
+			s.ListVersions(b, "p", "/", "zzzz", "", -1)
+			for _, e := range full.Entries {
+				if e.Key != last.Key {
+					continue
+				}
+				if s.everEnabled {
+					s.DeleteVersion(b, e.Key, e.ID)
+				} else {
+					s.Delete(b, e.Key)
+				}
+			}
+			vm := last.ID
+			if vm == "null" {
+				vm = ""
+			}
+			s.ListVersions(b, "", "", last.Key, vm, 1+rng.Intn(3))
+			s.ListVersions(b, "", "", last.Key, "", -1)
+			s.ListVersions(b, "", "", "", "", -1)
 		}
 		s.end()
 	}
